@@ -4,9 +4,10 @@ from .. import core, hist, world as W
 
 MODULES = ['DsdVerif.Props.C01']
 GEN_FILES = []
-THEOREM_NAMES = ['wf_init', 'wf_call', 'wf_drop', 'wf_steps', 'consistent_returns_same', 'conflict_raises_unchanged',
-                 'name_only', 'refused_no_effect', 'decide_existing_sound']
-THEOREMS = []
+THEOREM_NAMES = ['wf_init', 'wf_lookup', 'wf_unique', 'wf_call', 'wf_drop', 'wf_steps', 'consistent_returns_same',
+                 'conflict_raises_unchanged', 'name_only', 'refused_no_effect', 'create_only_when_free',
+                 'complex_keys_admissible', 'complex_keys_unregistered', 'domain_name_only_creates_only_starred']
+THEOREMS = ['Dsd.C01.' + t for t in THEOREM_NAMES]
 ASSUMPTIONS = [
     'WeakValueDictionary semantics is modelled: an entry exists exactly while its value is strongly reachable (Model/Registry.lean, '
     'Model/World.lean: reachability from user handles through containment)',
